@@ -413,6 +413,19 @@ def _c15_network(kind):
     if kind == "slotted":
         return ciw.create_network(arrival_distributions=[S("a", True)], service_distributions=[S("s")],
                                   number_of_servers=[ciw.Slotted(slots=[1.5, 2.5, 4.0], slot_sizes=[1, 2, 1])]), {}
+    if kind == "schedule_offset":
+        return ciw.create_network(arrival_distributions=[S("a", True)], service_distributions=[S("s")],
+                                  number_of_servers=[ciw.Schedule(numbers_of_servers=[1, 0, 2], shift_end_dates=[2, 3, 5], preemption=False, offset=0.5)]), {}
+    if kind == "slotted_offset":
+        return ciw.create_network(arrival_distributions=[S("a", True)], service_distributions=[S("s")],
+                                  number_of_servers=[ciw.Slotted(slots=[1.5, 2.5, 4.0], slot_sizes=[1, 2, 1], offset=0.25)]), {}
+    if kind == "classchange":
+        M = {"A": {"A": 0.5, "B": 0.5}, "B": {"A": 0.0, "B": 1.0}}
+        return ciw.create_network(arrival_distributions={"A": [S("aA", True)], "B": [S("aB", True)]}, service_distributions={"A": [S("sA")], "B": [S("sB")]},
+                                  number_of_servers=[1], class_change_matrices=[M], priority_classes={"A": 0, "B": 1}), dict(tracker=lambda: ciw.trackers.NodeClassMatrix())
+    if kind == "baulk":
+        return ciw.create_network(arrival_distributions=[S("a", True)], service_distributions=[S("s")], number_of_servers=[1],
+                                  baulking_functions=[lambda n, Q=None, next_ind=None, next_node=None: 0.5]), {}
     if kind == "process":
         def route(ind, simulation):
             return [1, 2] if ciw.random_choice([0, 1]) == 0 else [1]
